@@ -125,6 +125,7 @@ type rewriter struct {
 	n        int
 	skip     map[ast.Node]bool      // comm statements of select clauses and their top-level operation
 	recvs    map[*ast.CallExpr]bool // generated simrt.Recv calls (upgradable to Recv2)
+	gosched  map[*ast.SelectorExpr]bool // runtime.Gosched, to become simrt.Gosched
 	rkind    map[*ast.RangeStmt]string
 	goConst  map[*ast.GoStmt][]bool // argument is an untyped constant or nil: inline it
 	goDirect map[*ast.GoStmt]bool   // the callee names a declared function (possibly generic, possibly of another package): nothing to evaluate at the go statement
@@ -266,8 +267,14 @@ func (r *rewriter) rewrite() bool {
 					full := pn.Imported().Path() + "." + x.Sel.Name
 					switch full {
 					case "context.WithTimeout", "context.WithDeadline", "context.WithTimeoutCause", "context.WithDeadlineCause", "context.AfterFunc",
-						"reflect.Select", "runtime.Gosched", "runtime.LockOSThread", "os/signal.Notify", "runtime.SetFinalizer":
+						"reflect.Select", "runtime.LockOSThread", "os/signal.Notify", "runtime.SetFinalizer":
 						die("%s: %s is not modelled by the simulator (it would act outside the scheduler's control)", r.pos(x), full)
+					case "runtime.Gosched":
+						// a scheduling point at which the caller offers to be descheduled
+						if r.gosched == nil {
+							r.gosched = map[*ast.SelectorExpr]bool{}
+						}
+						r.gosched[x] = true
 					}
 				}
 			}
@@ -353,6 +360,10 @@ func (r *rewriter) rewrite() bool {
 				}
 			}
 		case *ast.CallExpr:
+			if se, ok := x.Fun.(*ast.SelectorExpr); ok && r.gosched[se] {
+				x.Fun = rt("Gosched")
+				r.mark()
+			}
 			if fn, ok := x.Fun.(*ast.Ident); ok && fn.Name == "close" && len(x.Args) == 1 {
 				if _, isBuiltin := r.info.Uses[fn].(*types.Builtin); isBuiltin {
 					x.Fun = rt("Close")
@@ -392,6 +403,9 @@ func (r *rewriter) rewrite() bool {
 
 	if r.usedRT {
 		astutil.AddNamedImport(r.fset, r.file, rtName, rtPath)
+	}
+	if len(r.gosched) > 0 && !astutil.UsesImport(r.file, "runtime") {
+		astutil.DeleteImport(r.fset, r.file, "runtime")
 	}
 	if r.changed {
 		// generated nodes carry no positions; free-floating comments could be
